@@ -199,6 +199,11 @@ func (c *config) WriteFrontendMaps() error {
 	defaultHost := c.hosts.DefaultHost()
 	if defaultHost != nil && !defaultHost.SSLPassthrough() {
 		for _, path := range defaultHost.Paths {
+			// a path without a backend, e.g. one that only declares redirect-to,
+			// must not be added: the map would name an empty backend
+			if path.Backend.ID == "" {
+				continue
+			}
 			// using DefaultHost ID as hostname, see types.maps.go/buildMapKey()
 			fmaps.DefaultHostMap.AddHostnamePathMapping(hatypes.DefaultHost, path, path.Backend.ID)
 		}
